@@ -303,7 +303,7 @@ def main(a):
                                    "known-findings=%d). " % (discharged, obligations, len(violations), len(undecided),
                                                              len(known_hits))) + coverage["explanation"]
     ev = {
-        "property_id": pid, "tier": tier, "seed": seed, "level": level, "coverage": coverage,
+        "property_id": pid, "tier": ("thorough" if tier == "extended" else tier), "seed": seed, "level": level, "coverage": coverage,
         "assumptions": meta.get("assumptions", []), "wall_s": timer.s(), "violations": len(violations),
     }
     write_evidence(pid, ev)
